@@ -949,4 +949,52 @@ theorem C16_timeout_not_earlier (n : Net) (y : Nat) (b : Node) (s : RSession) (h
   · rw [data_rem hd]; exact hs
 
 
+/-! ### non-vacuity: concrete states meeting the hypotheses, and the repaired behaviours on the witnesses of the findings -/
+
+/-- two default nodes (admin/admin, everything running), short time-outs -/
+def demoNet : Net := { nodes := [{ remoteTimeout := 2, maxRemote := 2 }, { remoteTimeout := 2, maxRemote := 2 }] }
+
+def login01 : Op := .remoteLogin 0 1 "admin" "admin"
+
+-- a valid login succeeds, a wrong password does not (C16_remote_login_ok_iff is not vacuous in either direction)
+example : (step demoNet login01).2 = .success := by decide
+example : (step demoNet (.remoteLogin 0 1 "admin" "nope")).2 = .failure := by decide
+-- hypotheses of C16_command_runs_only_live: a command over the live session changes the target's files
+example : ((run demoNet [login01, .remoteCmd 0 1 7]).node 1).map (·.files) = some [7] := by decide
+-- the initial state satisfies the invariants' hypotheses
+example : WithinLimit demoNet := by
+  intro y b hb
+  match y, hb with
+  | 0, hb => cases hb; decide
+  | 1, hb => cases hb; decide
+example : AdminRemains demoNet := by
+  intro y b hb
+  match y, hb with
+  | 0, hb => cases hb; decide
+  | 1, hb => cases hb; decide
+-- F-27 witness on the model of the repaired code: two sessions, password change, no session left, commands refused
+example : ((run demoNet [login01, login01, .changePassword 1 "admin" "admin" "pw1"]).node 1).map (·.rem) = some [] := by decide
+example : (step (run demoNet [login01, login01, .changePassword 1 "admin" "admin" "pw1"]) (.remoteCmd 0 1 9)).2 = .failure := by
+  decide
+-- ... also while the session manager of the target is stopped
+example : ((run demoNet [login01, .svc 1 .sessionManager .stop, .changePassword 1 "admin" "admin" "pw1"]).node 1).map (·.rem)
+    = some [] := by decide
+-- hypotheses of C16_ended_stays_ended: after logoff, id 0 has been handed out and is not a session of node 1
+example : (run demoNet [login01, .remoteLogoff 0 1]).nextId = 1 ∧
+    ((run demoNet [login01, .remoteLogoff 0 1]).node 1).map (·.hasSession 0) = some false := by decide
+-- limit boundary: third login refused at maxRemote = 2, accepted again after a logoff
+example : (step (run demoNet [login01, login01]) login01).2 = .failure := by decide
+example : (step (run demoNet [login01, login01, .remoteLogoff 0 1]) login01).2 = .success := by decide
+-- time-out: alive after 1 tick, gone after 2 (remoteTimeout = 2)
+example : ((run demoNet [login01, .tick]).node 1).map (·.rem.length) = some 1 := by decide
+example : ((run demoNet [login01, .tick, .tick]).node 1).map (·.rem.length) = some 0 := by decide
+-- F-2 witness: target shut down, the command is answered `failure`, not the earlier success
+example : (step (run demoNet [login01, .remoteCmd 0 1 1, .shutdown 1]) (.remoteCmd 0 1 2)).2 = .failure := by decide
+-- last admin: disabling the only enabled admin is refused
+example : (step demoNet (.disableUser 1 "admin")).2 = .failure := by decide
+-- the fuel bound was enough on all of these
+example : (run demoNet [login01, login01, .changePassword 1 "admin" "admin" "pw1", .remoteLogoff 0 1, .tick, .tick]).stuck = false := by
+  decide
+
+
 end Primaite.Session
